@@ -7,6 +7,7 @@ import (
 	"flag"
 	"fmt"
 	"os"
+	"os/exec"
 	"path/filepath"
 	"runtime"
 	"runtime/debug"
@@ -53,6 +54,10 @@ type Check struct {
 	// Hist is true for explicit-state history searches (states/transitions
 	// are reported in evidence).
 	Hist bool
+	// Procs > 0: the exploration is sharded over that many worker
+	// subprocesses (for code under test with process-global state such as
+	// stdin/stdout); Run must use r.Mine(i) to select its share.
+	Procs int
 }
 
 type finding struct {
@@ -87,6 +92,120 @@ type Run struct {
 	notes    []string
 	extra    map[string]any
 	check    Check
+
+	shardIdx, shardN int
+}
+
+// Mine reports whether work item i belongs to this worker process.
+func (r *Run) Mine(i int) bool { return r.shardN <= 1 || i%r.shardN == r.shardIdx }
+
+// partial is what a worker process hands to its parent.
+type partial struct {
+	Evals, Nontrivial, States, Trans, Traces int64
+	Capped                                   bool
+	Fails                                    map[string]*Fail
+	FailCnt                                  map[string]int
+	Outcomes                                 []string
+	Samples                                  []any
+	Notes                                    []string
+	Extra                                    map[string]any
+}
+
+func (r *Run) writePartial(path string) {
+	p := partial{Evals: r.evals.Load(), Nontrivial: r.nontrivial.Load(), States: r.states.Load(), Trans: r.trans.Load(),
+		Traces: r.traces.Load(), Capped: r.capped.Load(), Fails: r.fails, FailCnt: r.failCnt, Samples: r.samples, Notes: r.notes, Extra: r.extra}
+	for k := range r.outcomes {
+		p.Outcomes = append(p.Outcomes, k)
+	}
+	b, err := json.Marshal(p)
+	if err != nil {
+		fmt.Fprintf(os.Stderr, "worker: cannot encode results: %v\n", err)
+		os.Exit(3)
+	}
+	if err := os.WriteFile(path, b, 0o644); err != nil {
+		fmt.Fprintf(os.Stderr, "worker: %v\n", err)
+		os.Exit(3)
+	}
+}
+
+func (r *Run) merge(p *partial, first bool) {
+	r.evals.Add(p.Evals)
+	r.nontrivial.Add(p.Nontrivial)
+	r.states.Add(p.States)
+	r.trans.Add(p.Trans)
+	r.traces.Add(p.Traces)
+	if p.Capped {
+		r.capped.Store(true)
+	}
+	for s, f := range p.Fails {
+		if _, ok := r.fails[s]; !ok {
+			r.fails[s] = f
+		}
+		r.failCnt[s] += p.FailCnt[s]
+	}
+	for _, o := range p.Outcomes {
+		r.outcomes[o] = struct{}{}
+	}
+	for _, x := range p.Samples {
+		if len(r.samples) < 6 {
+			r.samples = append(r.samples, x)
+		}
+	}
+	if first {
+		r.notes = append(r.notes, p.Notes...)
+		for k, v := range p.Extra {
+			r.extra[k] = v
+		}
+	}
+}
+
+// runWorkers spawns the worker processes and merges their results.
+func (r *Run) runWorkers(n int) {
+	dir, err := os.MkdirTemp("", "vshard")
+	if err != nil {
+		fmt.Fprintln(os.Stderr, err)
+		os.Exit(3)
+	}
+	defer os.RemoveAll(dir)
+	type res struct {
+		idx int
+		err error
+		out []byte
+	}
+	ch := make(chan res, n)
+	for i := 0; i < n; i++ {
+		go func(i int) {
+			cmd := exec.Command(os.Args[0], "-id", r.ID, "-tier", r.Tier, "-shard", fmt.Sprintf("%d/%d", i, n), "-out", filepath.Join(dir, fmt.Sprintf("p%d.json", i)))
+			cmd.Env = os.Environ()
+			out, err := cmd.CombinedOutput()
+			ch <- res{i, err, out}
+		}(i)
+	}
+	failed := false
+	for i := 0; i < n; i++ {
+		x := <-ch
+		if x.err != nil {
+			fmt.Fprintf(os.Stderr, "worker %d failed: %v\n%s\n", x.idx, x.err, x.out)
+			failed = true
+		}
+	}
+	if failed {
+		os.Exit(3)
+	}
+	for i := 0; i < n; i++ {
+		b, err := os.ReadFile(filepath.Join(dir, fmt.Sprintf("p%d.json", i)))
+		if err != nil {
+			fmt.Fprintln(os.Stderr, err)
+			os.Exit(3)
+		}
+		var p partial
+		if err := json.Unmarshal(b, &p); err != nil {
+			fmt.Fprintln(os.Stderr, err)
+			os.Exit(3)
+		}
+		r.merge(&p, i == 0)
+	}
+	r.Note("sharded over %d worker processes", n)
 }
 
 func (r *Run) Quick() bool { return r.Tier != "thorough" }
@@ -410,6 +529,8 @@ func Main(checks map[string]Check) {
 	id := flag.String("id", "", "property id")
 	tier := flag.String("tier", "quick", "quick|thorough")
 	replay := flag.String("replay", "", "replay file")
+	shard := flag.String("shard", "", "worker mode: k/n")
+	outFile := flag.String("out", "", "worker mode: result file")
 	flag.Parse()
 	if t := os.Getenv("VERIF_TIER"); t != "" && *tier == "" {
 		*tier = t
@@ -453,6 +574,16 @@ func Main(checks map[string]Check) {
 			r.limit = 3 * time.Hour
 		}
 	}
-	c.Run(r)
+	if *shard != "" {
+		fmt.Sscanf(*shard, "%d/%d", &r.shardIdx, &r.shardN)
+		c.Run(r)
+		r.writePartial(*outFile)
+		os.Exit(0)
+	}
+	if c.Procs > 0 {
+		r.runWorkers(c.Procs)
+	} else {
+		c.Run(r)
+	}
 	os.Exit(r.finish())
 }
